@@ -23,6 +23,11 @@ LEVEL_NOTE = "Not decided: representation and round trip over the whole domain o
 ASSUMPTIONS = ["Decimal.normalize()/quantize() round to the ambient context (28 digits by default); int/int true division is exact only below 2**53"]
 
 
+# Decimal methods whose result is rounded to the ambient context (decimal module documentation); exact ones
+# (as_tuple, is_*, copy_*, adjusted, compare_total, __neg__ on the unscaled int, ...) are not listed
+CONTEXT_DEPENDENT = {"normalize", "quantize", "to_integral_value", "to_integral", "to_integral_exact", "fma", "sqrt", "scaleb", "shift", "rotate", "exp", "ln", "log10", "logb", "next_minus", "next_plus", "next_toward", "remainder_near", "max", "min", "max_mag", "min_mag", "__round__"}
+
+
 def run(ctx):
     a = analysis(ctx.program)
     p = a.p
@@ -187,8 +192,13 @@ def run(ctx):
         if not name.startswith("prepare_"):
             continue
         for n in walk_local(f.node):
-            if isinstance(n, ast.Call) and isinstance(n.func, ast.Attribute) and n.func.attr in ("normalize", "quantize", "to_integral_value", "to_integral", "fma", "sqrt") and not n.keywords:
+            if isinstance(n, ast.Call) and isinstance(n.func, ast.Attribute) and n.func.attr in CONTEXT_DEPENDENT and not any(k.arg == "context" for k in n.keywords):
                 bad.append((f, n, f"{n.func.attr}() rounds to the ambient decimal context (28 significant digits by default): a wider decimal is stored as a different number"))
+            # arithmetic on the Decimal itself is rounded to the ambient context as well
+            if "decimal" in name and isinstance(n, ast.BinOp) and isinstance(n.op, (ast.Mult, ast.Add, ast.Sub, ast.Div, ast.FloorDiv, ast.Mod, ast.Pow)) and any(isinstance(x, ast.Name) and x.id == f.pos_params[0] for x in (n.left, n.right)):
+                bad.append((f, n, f"`{norm(n)[:60]}`: arithmetic on the Decimal is rounded to the ambient decimal context (28 significant digits by default): a wider decimal is stored as a different number"))
+            if "decimal" in name and isinstance(n, ast.Call) and isinstance(n.func, ast.Name) and n.func.id == "round" and n.args and isinstance(n.args[0], ast.Name) and n.args[0].id == f.pos_params[0]:
+                bad.append((f, n, "round() of the Decimal changes its value"))
     ctx.check("C16.R6", "decimal preparers call no context-dependent Decimal method", not bad, bad[0][0].where(bad[0][1]) if bad else lwm.relpath, f"{bad[0][0].qualname}: {norm(bad[0][1])}" if bad else "", bad[0][2] if bad else "")
     bad = []
     for name, f in sorted(lwm.functions.items()):
